@@ -190,6 +190,20 @@ def run_case(case, ctx):
             p.add_blackbox(cg.BlackBox("ff", ["d"], ["q"]), "inst_b", {"d": sorted(srcs)[-1]})
         if order:  # some unrelated edit between add_blackbox and fill_blackbox
             p.add("later", "not", fanin=sorted(srcs)[0], output=True)
+        wired = [o for o in outs if o in conns]
+        if wired and r.random() < 0.3:
+            # the caller breaks a pin, tries to fill (must be refused), repairs the pin: the fill must then work as if
+            # nothing had happened in between
+            o = r.choice(sorted(wired))
+            pin = "inst.%s" % o
+            p.remove(pin)
+            p.add(pin, "buf", fanout=conns[o])
+            try:
+                p.fill_blackbox("inst", sc)
+            except ValueError:
+                pass
+            p.remove(pin)
+            p.add(pin, "bb_output", fanout=conns[o])
         pre = proj(p)
         exc = ""
         try:
